@@ -96,6 +96,15 @@ def file_spec(desc):
                 jj = g.choice(N, size=min(N, 2 * k), replace=False)
                 col[nm][jj[:k]] = res - 1
                 col[nm][jj[k:]] = 0
+    # the same channels exported in another column order (another acquisition template / export tool)
+    variant = desc.get('layout_variant')
+    if variant == 'time_first':
+        names = [inst['time']] + [n for n in names if n != inst['time']]
+    elif variant == 'reversed':
+        names = names[::-1]
+    elif variant == 'swap_fl' and nfl >= 2:
+        i0, i1 = names.index(fl_names[0]), names.index(fl_names[1])
+        names[i0], names[i1] = names[i1], names[i0]
     ev = np.c_[tuple(np.asarray(col[nm], dtype=float) for nm in names)]
     if dt == 'I':
         ev = np.round(ev).astype(np.int64)
@@ -180,7 +189,8 @@ def gen_experiment(rng, faults=True, max_samples=5, max_beads=2, small=False, pl
             row['mef'] = {}                                      # healthy row without calibration
         if f == 'few_events':
             n = rng.choice([120, 399])
-        row['File Path'] = new_file('beads', inst, n, npop=npop, volt=rng.choice([500, 600]))
+        row['File Path'] = new_file('beads', inst, n, npop=npop, volt=rng.choice([500, 600]),
+                                    layout_variant=rng.choice([None, None, None, 'time_first', 'swap_fl']))
         if f == 'file_not_found':
             row['File Path'] = 'missing_%d.fcs' % k
         elif f == 'gate_fraction_big':
@@ -254,7 +264,7 @@ def gen_experiment(rng, faults=True, max_samples=5, max_beads=2, small=False, pl
         elif f == 'gate_fraction_big':
             row['Gate Fraction'] = 1.2
         elif f == 'bad_units':
-            row['units'][fl0] = rng.choice(['furlongs', 'MEFL', 'arb'])
+            row['units'][fl0] = rng.choice(['furlongs', 'MEFL', 'arb', 'ME', 'RF', 'Chan', 'a.u', 'RFI units', 'mef/cell'])
         elif f == 'beads_failed':
             fb = rng.choice([b for b in exp['beads'] if b['fault'] is not None])
             row['Beads ID'] = fb['ID']
@@ -316,7 +326,8 @@ def gen_experiment(rng, faults=True, max_samples=5, max_beads=2, small=False, pl
                                                                                         and not good_beads),
                                     overrange=bool(dt == 'F' and rng.chance(0.4)),
                                     version=rng.choice(['FCS2.0', 'FCS3.0', 'FCS3.1']),
-                                    byteord=rng.choice(['1,2,3,4', '4,3,2,1']))
+                                    byteord=rng.choice(['1,2,3,4', '4,3,2,1']),
+                                    layout_variant=rng.choice([None, None, None, 'time_first', 'reversed', 'swap_fl']))
         if f == 'file_not_found':
             row['File Path'] = 'nowhere/none_%d.fcs' % k
         elif f == 'path_is_directory':
